@@ -120,7 +120,7 @@ def i_EOR(i, fmap):
     fmap[pc] = fmap[pc] + i.length
     dst, src1, src2 = i.operands
     x = fmap(src1 ^ src2)
-    fmap[dst] = fmap(x)
+    fmap[dst] = x
     if i.setflags:
         fmap[N] = x[x.size - 1 : x.size]
         fmap[Z] = x == 0
